@@ -92,6 +92,9 @@ let look_at sl =
   (* one server look at the slot's connection *)
   if sl.established then begin
     if not sl.client_up then begin
+      (* socket transport: the request socket is looked at before the setup socket reports the hang-up, so what
+         is queued there is still delivered; shm: the hang-up on the one descriptor comes first *)
+      if !tr = Sock then for _ = 1 to sl.pending_sends do exec_op sl.ord LPeerSend done;
       List.iter (exec_op sl.ord) (teardown_ops !tr);
       sl.established <- false; sl.pending_sends <- 0
     end else begin
@@ -180,6 +183,15 @@ let () =
             let l = List.filter (fun sl -> sl.ord >= 0) (Array.to_list slots) in
             List.iter look_at (List.sort (fun a b -> compare a.ord b.ord) l);
             pr "chan %d" (chan_count ())
+          | ["inject"; a; b] ->
+            (* socket transport: the request address of an established connection is an abstract-namespace datagram
+               socket; a datagram from ANY local process arrives there like the peer's own (the server cannot tell) *)
+            let i = int_of_string a in
+            let sa = slots.(i) and sb = slots.(int_of_string b) in
+            if not sa.alive then pr "injected %d dead" i
+            else if !tr = Sock && sb.established then begin
+              sb.pending_sends <- sb.pending_sends + 1; pr "injected %d ok" i
+            end else pr "injected %d none" i
           | ["kill"; s] ->
             let sl = slots.(int_of_string s) in
             sl.alive <- false; sl.client_up <- false
